@@ -25,7 +25,7 @@ DeltaNats == {0, 1} \cup UNION { {p - 1, p, p + 1, 2 * p} : p \in Periods }
 WrapDeltas == { Neg(TimeOfNat(k)) : k \in {1} \cup Periods }        \* 2^32 - k
 Deltas == { TimeOfNat(d) : d \in DeltaNats } \cup WrapDeltas
 
-Init == (\E S \in Devices : SInit(S)) /\ hist = <<>>
+Init == (\E S \in Devices : SInit(S, "ecu")) /\ hist = <<>>
 Step(d) == LET t == AddBits(lastCall, d) IN
            \* the driver's clock is the last DISTINCT timestamp, so delta 0 repeats the previous call's time
            /\ Call(t)
